@@ -1390,6 +1390,7 @@ def _run_o2(spec: dict[str, Any], ctx: Ctx) -> None:
     if tier != "quick":
         step_orders.append([False, True, False])
     bases = [b for b in range(128) if not b & BIT["render-arg"]]
+    bases.sort(key=lambda b: (b * 37) % 128)  # spread cheap and costly subsets over shards
 
     def undocumented(variant: str, m: int) -> bool:
         # whether an assign inside a rendered partial / macro body may rebind one of
@@ -1439,9 +1440,15 @@ def _run_o2(spec: dict[str, Any], ctx: Ctx) -> None:
                         if (fk == "elist" and (context, variant) == ("include", "bind")
                                 and m & BIT["block"]):
                             continue  # `include … with <array>` iterates: zero renders
-                        if (tier == "quick" and vi and (m + vi + pi) % 2
-                                and (fk not in ("nil", "false") or fmode != "inner")):
-                            continue  # quick: half of the variants for the other profiles
+                        if tier == "quick" and vi:
+                            # quick: nil/false in the resolving layer run every variant
+                            # (nil under StrictUndefined: half); the other profiles the
+                            # first variant plus a rotating third of the rest
+                            if fk in ("nil", "false") and fmode == "inner":
+                                if strict and fk == "nil" and (m + vi) % 2:
+                                    continue
+                            elif (m + vi + pi) % 3:
+                                continue
                         falsy = {"kind": fk, "mode": fmode, "lit": (m + vi + pi) % 2 == 0,
                                  "strict": strict}
                         tpls = build(name, m, context, variant, None, falsy)
@@ -1790,7 +1797,7 @@ def shards(tier: str, seed: int) -> list[dict[str, Any]]:  # noqa: ARG001
     for i in range(nc):
         specs.append({"kind": "chains", "i": i, "n": nc})
     for name in NAMES:
-        for context, n in (("root", 4), ("include", 2), ("render", 2), ("macro", 1), ("extends", 1)):
+        for context, n in (("root", 3), ("include", 3), ("render", 3), ("macro", 3), ("extends", 2)):
             for i in range(n):
                 specs.append({"kind": "layers", "name": name, "context": context, "i": i, "n": n})
     ncached = 2 if tier == "quick" else 6
